@@ -1080,3 +1080,104 @@ func (c *Ctx) dialLikeIn(fn *ssa.Function) []*ssa.Call {
 	}
 	return out
 }
+
+// structFieldStoresDeep: the field initialisers of a struct local; when the local is filled as a
+// whole from a first-party constructor that returns a literal by value (claims := newClaims(user,
+// issuer)), the constructor's field initialisers with its parameters replaced by the call's
+// arguments.
+func (c *Ctx) structFieldStoresDeep(al *ssa.Alloc) map[string][]ssa.Value {
+	st := structFieldStores(al)
+	if len(st) > 0 {
+		return st
+	}
+	sts := storesTo(al)
+	if len(sts) != 1 {
+		return st
+	}
+	call, ok := strip(sts[0].Val).(*ssa.Call)
+	if !ok {
+		return st
+	}
+	h := call.Call.StaticCallee()
+	if h == nil || !IsFirstParty(h) || h.Blocks == nil {
+		return st
+	}
+	rets := returnsOf(h)
+	if len(rets) != 1 || len(rets[0].Results) != 1 {
+		return st
+	}
+	la, ok := loadAddr(strip(rets[0].Results[0]))
+	if !ok {
+		return st
+	}
+	hal, ok := la.(*ssa.Alloc)
+	if !ok {
+		return st
+	}
+	out := map[string][]ssa.Value{}
+	for name, vs := range structFieldStores(hal) {
+		for _, v := range vs {
+			if p, isP := strip(v).(*ssa.Parameter); isP {
+				for j, q := range h.Params {
+					if q == p && j < len(call.Call.Args) {
+						v = call.Call.Args[j]
+					}
+				}
+			}
+			out[name] = append(out[name], v)
+		}
+	}
+	return out
+}
+
+// claimsOf: the registered-claims literal of a minting function: a jwt.Claims local of fn, or the
+// value of a call in fn to a first-party constructor that returns such a literal (newClaims(user,
+// issuer)). fields: the initialisers in fn's frame; holds(v): v is that claims value.
+func (c *Ctx) claimsOf(fn *ssa.Function) (fields map[string][]ssa.Value, pos token.Pos, holds func(ssa.Value) bool, ok bool) {
+	var std *ssa.Alloc
+	eachInstr(fn, func(in ssa.Instruction) {
+		if al, isAl := in.(*ssa.Alloc); isAl && typeIs(al.Type(), joseJWT, "Claims") {
+			std = al
+		}
+	})
+	if std != nil {
+		return c.structFieldStoresDeep(std), std.Pos(), func(v ssa.Value) bool {
+			a, isLoad := loadAddr(strip(v))
+			return isLoad && a == ssa.Value(std)
+		}, true
+	}
+	for _, ci := range callsIn(fn) {
+		call, isCall := ci.(*ssa.Call)
+		if !isCall || !typeIs(call.Type(), joseJWT, "Claims") {
+			continue
+		}
+		h := call.Call.StaticCallee()
+		if h == nil || !IsFirstParty(h) || h.Blocks == nil {
+			continue
+		}
+		rets := returnsOf(h)
+		if len(rets) != 1 || len(rets[0].Results) != 1 {
+			continue
+		}
+		la, isLoad := loadAddr(strip(rets[0].Results[0]))
+		hal, isAl := la.(*ssa.Alloc)
+		if !isLoad || !isAl {
+			continue
+		}
+		out := map[string][]ssa.Value{}
+		for name, vs := range structFieldStores(hal) {
+			for _, v := range vs {
+				if p, isP := strip(v).(*ssa.Parameter); isP {
+					for j, q := range h.Params {
+						if q == p && j < len(call.Call.Args) {
+							v = call.Call.Args[j]
+						}
+					}
+				}
+				out[name] = append(out[name], v)
+			}
+		}
+		return out, call.Pos(), func(v ssa.Value) bool { return strip(v) == ssa.Value(call) }, true
+	}
+	return nil, token.NoPos, nil, false
+}
